@@ -109,6 +109,8 @@ func wReset(nPkg, nDeps, nReg int) {
 	wFaults = false
 	wLeafPkgs, wKindMask = false, 0
 	wSharedFinders = false
+	wPrunedNoise = false
+	wEscapes, wEscapeReported = 0, false
 }
 
 // wResetBuild: a second build of the same world (C13): counters and the target directory start
@@ -174,9 +176,9 @@ func wDepsOf(k wFinderKey) []wDep {
 			d.node = wDrawNode()
 		case 2:
 			if k.node.loc == 0 {
-				d.rel = []string{"./m", "./"}[verif.Choose("dep.rel", 2)]
+				d.rel = []string{"./m", "./", ".."}[verif.Choose("dep.rel", 2+wEscapes)]
 			} else {
-				d.rel = []string{"../", "./", "../m"}[verif.Choose("dep.rel", 3)]
+				d.rel = []string{"../", "./", "../m", "../.."}[verif.Choose("dep.rel", 3+wEscapes)]
 			}
 		case 3:
 			d.reg = verif.Choose("dep.reg", wNReg)
@@ -207,6 +209,9 @@ type wSharedFinder struct{ kind int }
 
 var wShared = []*wSharedFinder{{0}, {1}, {2}}
 var wSharedFinders bool
+var wPrunedNoise bool
+var wEscapes int        // 1: finders may report a relative dependency that climbs just above the package root
+var wEscapeReported bool
 
 func wMkFinder(n wNode, kind int) DependencyFinder {
 	if wSharedFinders {
@@ -273,6 +278,9 @@ func (f wFinder) FindDependencies(fsys fs.FS, subPath string, deps *Dependencies
 func wFindDeps(f wFinder, k wFinderKey, deps *Dependencies, out Diagnostics) Diagnostics {
 	// the finder handed over for a location is called for that location
 	verif.Assert("C08-finder-runs-at-the-location-it-was-declared-for", wSubPathSeen == wLocs[wDeclaredLoc])
+	// C11: a registry source's own sub-path is joined onto the sub-path of the address the registry
+	// named, on every request (the finder declared for the joined location is run exactly there)
+	verif.Assert("C11-sub-paths-compose-on-every-resolution", wSubPathSeen == wLocs[wDeclaredLoc])
 	for _, d := range wDepsOf(k) {
 		switch d.kind {
 		case 1:
@@ -281,6 +289,11 @@ func wFindDeps(f wFinder, k wFinderKey, deps *Dependencies, out Diagnostics) Dia
 			if tgt, ok := wRelTarget(f.node, d.rel); ok {
 				l, _ := sourceaddrs.ParseLocalSource(d.rel)
 				deps.AddLocalSource(l, wMkFinder(tgt, d.finder))
+			} else if d.rel == ".." || d.rel == "../.." {
+				// climbs to just above the package root: has to be refused
+				l, _ := sourceaddrs.ParseLocalSource(d.rel)
+				deps.AddLocalSource(l, wMkFinder(wNode{f.node.pkg, 0}, d.finder))
+				wEscapeReported = true
 			}
 		case 3:
 			tgt := wRegistryTarget(d.reg, wRefSelect(d.set))
@@ -371,12 +384,20 @@ func (wFetcher) FetchSourcePackage(ctx context.Context, sourceType string, u *ur
 	if wSharedFinders {
 		envWriteFile(targetDir+"/pkg.id", 0644, 1000, string(rune('0'+i)))
 	}
+	if wPrunedNoise {
+		// files that differ from package to package but are removed by the built-in rules: they do
+		// not count as content
+		envMkdir(targetDir+"/.git", 0755, 1000)
+		envWriteFile(targetDir+"/.git/HEAD", 0644, 1000, "ref"+string(rune('0'+i)))
+	}
 	envMkdir(targetDir+"/m", 0755, 1000)
 	envWriteFile(targetDir+"/m/mod.tf", 0644, 1000, c+"m")
 	if wExtras { // odd modes, an empty directory, an in-package link
 		envWriteFile(targetDir+"/secret", 0600, 1000, "s")
 		envMkdir(targetDir+"/empty", 0711, 1000)
 		envSymlink(targetDir+"/lnk", "main.tf", 1000)
+		envSymlink(targetDir+"/lnk2", "./main.tf", 1000)    // targets that are not in lexically minimal form
+		envSymlink(targetDir+"/lnk3", "m/../main.tf", 1000) // are kept as they are
 		// the package re-includes a directory the default rules exclude: it stays in the bundle
 		envWriteFile(targetDir+"/.terraformignore", 0644, 1000, "!.terraform/\n")
 		envMkdir(targetDir+"/.terraform", 0755, 1000)
